@@ -26,6 +26,18 @@ int rdfield() { return s.k; }
 int rdif() { if (N > 1) { return g; } return 1; }
 int rdloop() { int i; int t = 0; for (i = 0; i < 2; i++) { t += a[i]; } return t; }
 int rdparam(int p) { return p + 1; }
+int rdlocalinit() { int t = g; return t; }
+int rdlocalarr() { int r[2] = { g, 1 }; return r[0]; }
+int rdnestedarr() { { int r[2] = { 1, a[0] }; return r[1]; } }
+int rdstructinit() { S l = { g, 2 }; return l.k; }
+int rdwhile() { int t = 0; while (t < g) { t++; } return 1; }
+int rddo() { int t = 0; do { t++; } while (t < g); return 1; }
+int rditer() { int t = 0; for (q : int[0,1]) { t += a[q]; } return t; }
+int rdret() { return N > 1 ? g : 2; }
+int rdarg() { return rdparam(g); }
+int rdindex() { return CA[g]; }
+int rdcond() { if (g > 0) { return 1; } return 2; }
+int rdassert() { assert(g >= 0); return 1; }
 int pure() { return N + 1; }
 int pure2() { return pure() * K1; }
 int purearr() { return CA[1] + CS.f; }
@@ -33,7 +45,8 @@ int pureloop() { int i; int t = 0; for (i = 0; i < N; i++) { t += i; } return t;
 """
 MUTABLE = ["g", "g + 1", "N + g", "a[0]", "a[N]", "s.f", "rd()", "rd2()", "rd3()", "rd4()", "rdarr()", "rdfield()", "rdif()",
            "rdloop()", "N + rd()", "(b ? 1 : g)", "(N > 1 ? g : 2)", "rdparam(g)", "rdparam(rd())", "pure() + rd2()", "abs(g)",
-           "(g <? 3)", "CA[g]", "-g"]
+           "(g <? 3)", "CA[g]", "-g", "rdlocalinit()", "rdlocalarr()", "rdnestedarr()", "rdstructinit()", "rdwhile()", "rddo()",
+           "rditer()", "rdret()", "rdarg()", "rdindex()", "rdcond()", "rdassert()"]
 PURE = ["N", "N + 1", "K1", "K2", "K2 - K1", "pure()", "pure2()", "purearr()", "pureloop()", "rdparam(N)", "rdparam(pure())", "CA[0]",
         "CA[N - 1]", "CS.f", "(N > 1 ? 2 : 3)", "(1 << N)", "abs(N)", "(K1 <? K2)", "3", "K1 * K2 % 5 + 1",
         "(sum (q : int[0,N]) q)", "(sum (q : int[0,1]) CA[q])"]
@@ -65,7 +78,13 @@ def free_param_cases():
     """(name, model, must_reject)"""
     out = []
     tdecls = {"array-size": "int la[n + 1];", "array-size-via-local-const": "const int m = n + 1; int la[m];",
-              "array-size-via-typedef": "typedef int[0, n] t_t; int la[n + 2];"}
+              "array-size-via-typedef": "typedef int[0, n] t_t; int la[n + 2];",
+              "array-size-via-2-consts": "const int m1 = n; const int m2 = m1 + 1; int la[m2];",
+              "array-size-via-3-consts": "const int m1 = n; const int m2 = m1 + 1; const int m3 = m2 * 2; int la[m3];",
+              "array-size-via-4-consts": "const int m1 = n + 1; const int m2 = m1; const int m3 = m2; const int m4 = m3 + m1; int la[m4];",
+              "array-size-via-const-and-function": "const int m1 = n; const int m2 = rdparam(m1); int la[m2];",
+              "array-size-2d-second": "const int m1 = n + 1; const int m2 = m1; int la[2][m2];",
+              "struct-field-array-size": "const int m1 = n + 1; const int m2 = m1; typedef struct { int f[m2]; } lt_t; lt_t lv;"}
     for nm, td in tdecls.items():
         out.append(("free-parameter:" + nm, xmlgen.simple_model(decl=DECL, params="const int[0,3] n", tdecl=td, system="system P;"), True))
         out.append(("bound-parameter:" + nm, xmlgen.simple_model(decl=DECL, params="const int[0,3] n", tdecl=td, system="P1 = P(2);\nsystem P1;"), False))
